@@ -45,3 +45,34 @@ def twin_can_skip(old: List[Tuple[int, int]], cur: List[Tuple[int, int]]) -> boo
     post: not _
     """
     return can_skip_spec(old, cur)
+
+
+class _Grid:
+    def __init__(self, n):
+        self.levels = n
+
+
+def levels_list_selects_every_chosen_level(levels: List[int], n: int) -> bool:
+    """
+    pre: 1 <= len(levels) <= 3 and 1 <= n <= 8
+    post: _
+    """
+    # seed.yaml `levels: [..]`: the task walks exactly the listed levels that exist in the grid -- none lost (the deepest
+    # one included), none invented, ascending and without duplicates (the walker indexes this list by position)
+    from mapproxy.seed.config import LevelsList
+    got = LevelsList(list(levels)).for_grid(_Grid(n))
+    ok = all(0 <= g < n and g in levels for g in got)
+    ok = ok and all((l in got) == (0 <= l < n) for l in levels)
+    return ok and all(got[i] < got[i + 1] for i in range(len(got) - 1))
+
+
+def levels_range_selects_every_level_between(start: int, stop: int, has_start: bool, has_stop: bool, n: int) -> bool:
+    """
+    pre: 1 <= n <= 8 and 0 <= start <= 9 and 0 <= stop <= 12
+    post: _
+    """
+    # seed.yaml `levels: {from: a, to: b}`: exactly the grid levels a..b (open ends default to the first / last level)
+    from mapproxy.seed.config import LevelsRange
+    got = LevelsRange((start if has_start else None, stop if has_stop else None)).for_grid(_Grid(n))
+    want = [l for l in range(n) if (not has_start or l >= start) and (not has_stop or l <= stop)]
+    return got == want
